@@ -53,9 +53,13 @@ def _enumerated_case(rule: ViralPropagationRule, a_ref: str, b_ref: str) -> str:
     binary = [c for c in rule.enumerated_clauses if len(c["values"]) == 2]
     unary = [c for c in rule.enumerated_clauses if len(c["values"]) == 1]
     for clause in binary:
-        cond_a = _value_in_pair(clause["values"][0], a_ref, b_ref)
-        cond_b = _value_in_pair(clause["values"][1], a_ref, b_ref)
-        whens.append(f"WHEN {cond_a} AND {cond_b} THEN {_sql_literal(clause['result'])}")
+        v1, v2 = _sql_literal(clause["values"][0]), _sql_literal(clause["values"][1])
+        # The pair {a, b} is the pair {v1, v2} in either order (NULL-safe, also right when v1 = v2).
+        cond = (
+            f"(({a_ref} IS NOT DISTINCT FROM {v1} AND {b_ref} IS NOT DISTINCT FROM {v2})"
+            f" OR ({a_ref} IS NOT DISTINCT FROM {v2} AND {b_ref} IS NOT DISTINCT FROM {v1}))"
+        )
+        whens.append(f"WHEN {cond} THEN {_sql_literal(clause['result'])}")
     for clause in unary:
         cond = _value_in_pair(clause["values"][0], a_ref, b_ref)
         whens.append(f"WHEN {cond} THEN {_sql_literal(clause['result'])}")
